@@ -105,6 +105,9 @@ Why(e) ==
          ELSE IF stopped /\ ~inSlice /\ slices >= conf.slack THEN "C09.PullAfterStop"
          ELSE IF started /\ conf.pre # 0 /\ pulled - Cardinality(endedT) >= LookaheadLimit
               THEN "C09.Lookahead"
+         \* before anything has completed only the caller's initial loop takes items: exactly the pre-dispatched amount
+         ELSE IF ~started /\ endedT = {} /\ conf.pre # 0 /\ pulled >= conf.pre
+              THEN "C09.InitialDispatchBeyondPreDispatch"
          ELSE "ok"
     [] e.ev = "Pull" ->
          IF ~Live(e.c) THEN "C09.PullOutsideCall"
